@@ -245,6 +245,15 @@ func CoerceBool(v Value) bool {
 }
 
 func stringToFloat(s string) float64 {
+	// Only a decimal numeral spells a number. strconv also reads "nan", "inf",
+	// "infinity", hexadecimal floats and digit separators.
+	for i := 0; i < len(s); i++ {
+		switch c := s[i]; {
+		case c >= '0' && c <= '9', c == '+', c == '-', c == '.', c == 'e', c == 'E':
+		default:
+			return 0
+		}
+	}
 	fv, err := strconv.ParseFloat(s, 64)
 	if err != nil {
 		return 0
